@@ -153,13 +153,17 @@ Cnt == {0, 1, 2, 65535, 65536}
 FlSmall == {<<>>, <<G(1, Pair)>>, <<G(1, <<Name>>), G(1, <<Name, S(1, 0), S(1, 2)>>)>>}
 FlBig   == {<<G(1, <<Name, S(1, l)>>)>> : l \in {65521, 65522, 65523, 70000}}                     \* 65 534, 65 535, 65 536, ..
            \cup {<<G(1, <<Name, S(8190, 6), S(1, x)>>)>> : x \in {0, 1, 2, 3}}                     \* 65 533 .. 65 536
+(* a second (small) tag field after a first one that almost fills the section: 20 + l (+2) bytes *)
+FlBig2  == {<<G(1, <<Name, S(1, l)>>), G(1, <<Name>>)>> : l \in 65508..65520}
+           \cup {<<G(1, <<Name, S(1, l)>>), G(1, <<Name, S(1, 0)>>)>> : l \in 65508..65520}
+           \cup {<<G(1, <<Name>>), G(1, <<Name, S(1, l)>>)>> : l \in 65512..65518}
 FilterCases ==
     {[kind |-> "filter", tags |-> t, content |-> 0, nids |-> i, nauthors |-> a, nkinds |-> k, opt |-> o]
        : t \in FlSmall, i \in {0, 1, 2}, a \in {0, 1, 2}, k \in {0, 1, 2}, o \in 0..3}
     \cup {[kind |-> "filter", tags |-> t, content |-> 0, nids |-> i, nauthors |-> a, nkinds |-> k, opt |-> 1]
             : t \in {<<>>, <<G(1, Pair)>>}, i \in Cnt, a \in Cnt, k \in Cnt}
     \cup {[kind |-> "filter", tags |-> t, content |-> 0, nids |-> i, nauthors |-> 0, nkinds |-> k, opt |-> 2]
-            : t \in FlBig, i \in {0, 1}, k \in {0, 2}}
+            : t \in FlBig \cup FlBig2, i \in {0, 1}, k \in {0, 2}}
     \cup (IF Thorough THEN {[kind |-> "filter", tags |-> <<>>, content |-> 0, nids |-> i, nauthors |-> a, nkinds |-> k, opt |-> 3]
                               : i \in {65534, 65537}, a \in {0, 65534, 65537}, k \in {0, 65534, 65537, 131072}}
           ELSE {})
